@@ -109,6 +109,19 @@ def session(bdir, sid, seed, corpus, sz, contempt):
                 return ev, f"no-bestmove in prior search {i} ({go} on {fen})"
             ev.append({"e": "Cmd", "proc": "A", "kind": "search", "tb": tb, "go": go})
         probe = rnd.choice([r for r in corpus if r["hist"]] or corpus)
+        probe = dict(probe)
+        if rnd.random() < 0.3 and probe["fen"].split()[3] == "-":
+            # the probe position again, earlier in the session, with another half-move clock: the two clocks share a bucket of the keys
+            # the evaluation cache and the hash table use (Position::historyHash lumps clocks below 40 together), so whatever the first
+            # search cached for this placement is still there when Clear Hash has done its work
+            f = probe["fen"].split()
+            h1, h2 = rnd.choice([0, 2, 5, 12, 20, 28]), rnd.choice([24, 26, 29, 30, 31, 35, 38, 39])
+            lines = do_search(A, " ".join(f[:4] + [str(h1), "60"]), f"depth {rnd.randint(4, 6)}")
+            if lines is None:
+                return ev, "no-bestmove in same-placement prior search"
+            ev.append({"e": "Cmd", "proc": "A", "kind": "search", "tb": False, "go": "same placement, other clock"})
+            probe["fen"] = " ".join(f[:4] + [str(h2), "60"])
+            probe["hist"] = []
         if probe["hist"] and rnd.random() < 0.6:
             # a related prior search: the position one ply before the probe position (same game, other side to move)
             A.send(f"position fen {probe['start']} moves {' '.join(probe['hist'][:-1])}".rstrip().replace(" moves", " moves" if len(probe["hist"]) > 1 else ""))
